@@ -424,24 +424,34 @@ class State:
         for (lo, hi) in self.zero.get(base, ()):
             if lo <= off < hi:
                 return ZERO
-        for (lo, hi, sbase, delta, snap, szero, ver) in reversed(self.copies.get(base, ())):
-            if lo <= off < hi:
-                sk = (sbase, off - delta)
-                if sk in snap:
-                    v = snap[sk]
-                else:
-                    z = False
-                    for (zl, zh) in szero:
-                        if zl <= off - delta < zh:
-                            z = True
-                    v = ZERO if z else ("ld", sbase, off - delta, ver)
-                self.store[k] = v
-                self.stype[k] = ty
-                return v
+        v = self._from_copies(self.copies.get(base, ()), off, 0)
+        if v is not None:
+            self.store[k] = v
+            self.stype[k] = ty
+            return v
         v = ("ld", base, off, self.fresh())
         self.store[k] = v
         self.stype[k] = ty
         return v
+
+    def _from_copies(self, records, off, depth):
+        """value at `off` of an object that was (partly) block-copied from other objects: the source's cell at copy time, its zero
+        fill, or - a copy of a copy (a struct passed and returned by value) - what the source had been copied from"""
+        for rec in reversed(list(records)):
+            lo, hi, sbase, delta, snap, szero, ver = rec[:7]
+            if lo <= off < hi:
+                sk = (sbase, off - delta)
+                if sk in snap:
+                    return snap[sk]
+                for (zl, zh) in szero:
+                    if zl <= off - delta < zh:
+                        return ZERO
+                if len(rec) > 7 and rec[7] and depth < 4:
+                    v = self._from_copies(rec[7], off - delta, depth + 1)
+                    if v is not None:
+                        return v
+                return ("ld", sbase, off - delta, ver)
+        return None
 
     def is_defined(self, ptr, size=1):
         """has the location been written on this path (store, zero fill or copy)?"""
@@ -496,14 +506,15 @@ class State:
             self.zero[base] = nz
         if base in self.copies:
             nc = []
-            for (cl, ch, sb, d, snap, sz, ver) in self.copies[base]:
+            for rec in self.copies[base]:
+                cl, ch = rec[0], rec[1]
                 if ch <= lo or cl >= hi:
-                    nc.append((cl, ch, sb, d, snap, sz, ver))
+                    nc.append(rec)
                 else:
                     if cl < lo:
-                        nc.append((cl, lo, sb, d, snap, sz, ver))
+                        nc.append((cl, lo) + tuple(rec[2:]))
                     if hi < ch:
-                        nc.append((hi, ch, sb, d, snap, sz, ver))
+                        nc.append((hi, ch) + tuple(rec[2:]))
             self.copies[base] = nc
 
     def memset(self, ptr, val, n):
@@ -534,7 +545,7 @@ class State:
             if k in self.stype:
                 self.stype[nk] = self.stype[k]
         # nested copies (src itself a copy) are resolved eagerly only for known entries; record the link
-        self.copies.setdefault(db, []).append((do, do + n, sb, do - so, snap, szero, self.fresh()))
+        self.copies.setdefault(db, []).append((do, do + n, sb, do - so, snap, szero, self.fresh(), scop if sb != db else []))
 
     def reachable_bases(self, roots):
         reach = set(roots)
@@ -1164,6 +1175,18 @@ class Executor:
             res_t = res
         if callee is None:
             kind, which = indirect_kind(ins)
+            if kind == "unknown" and getattr(ins, "callee_val", None) is not None:
+                # a callback that travelled as a value: a field of the caller's callback table, loaded at the call site of a helper and
+                # invoked inside it through a function-pointer parameter
+                cv = T(ins.callee_val)
+                while isinstance(cv, tuple) and cv[0] == "cast":
+                    cv = cv[3]
+                if isinstance(cv, tuple) and cv[0] == "ld" and isinstance(cv[1], tuple):
+                    cb_, co_ = ptr_key(cv[1])
+                    co_ = co_ + (cv[2] if len(cv) > 2 and isinstance(cv[2], int) else 0)
+                    lay = self.prog.structs.get("struct.cbor_callbacks")
+                    if self.type_of_term(cb_) == "%struct.cbor_callbacks*" and lay and co_ in lay.get("offsets", []):
+                        kind, which = "callback", lay["offsets"].index(co_)
             if kind == "alloc" and ins.type != "void":
                 res_t = ("call", which, ins.id, res[3])
             ev = Event("call", ins, f, actuals, res_t, len(st.facts), which if kind != "callback" else "callback#%s" % which,
